@@ -301,9 +301,11 @@ func init() {
 				add(1, 3, 3, 0, 1000)
 				add(2, 2, 3, 0, 1)
 				add(2, 2, 2, 0, 1000)
+				add(4, 2, 3, 0, 1000)
+				add(4, 1, 2, 0, 1000)
 				return js
 			}
-			for tpl := 0; tpl <= 3; tpl++ {
+			for tpl := 0; tpl <= 4; tpl++ {
 				for _, nk := range []int{2, 3} {
 					for _, c := range [][2]int{{3, 1}, {3, 40}, {3, 1000}, {2, 1000}, {1, 1}} {
 						if tpl == 3 && nk == 3 {
@@ -316,7 +318,7 @@ func init() {
 			return js
 		},
 		bounds: map[string]any{
-			"quick":    map[string]any{"workloads": "4 mixes (channel metadata map / Metadata record / two channels + metadata / schema + three channels over several chunks)", "map_entries": "2-3 per map, symbolic one-byte keys and values (so equal keys and every key order are included)", "iteration_orders": "every permutation of every range over a map, in the writer and in everything it calls", "options": "chunked (chunk size 1/40/1000) and unchunked, CRC on/off"},
+			"quick":    map[string]any{"workloads": "5 mixes (channel metadata map / Metadata record / two channels + metadata / schema + three channels over several chunks (thorough) / two schemas + two channels in descending id order)", "map_entries": "2-3 per map, symbolic one-byte keys and values (so equal keys and every key order are included)", "iteration_orders": "every permutation of every range over a map, in the writer and in everything it calls", "options": "chunked (chunk size 1/40/1000) and unchunked, CRC on/off"},
 			"thorough": map[string]any{"workloads": "as quick x map sizes 2,3 x 5 option sets"},
 		},
 		outside:     append([]string{"independence from GOMAXPROCS, from other goroutines and from concurrent writer/reader instances, and race-freedom: the engine has no scheduler model and the code in scope starts no goroutine (zstd, which does, is outside) - this clause of C13 is NOT decided", "maps with more than 3 entries"}, outsideCommon...),
@@ -337,7 +339,7 @@ func init() {
 				js = append(js, &Job{Module: "mcap", Harness: "VC14AttachmentSource", Params: P("dn", dn, "mode", mode, "cfg", cfg), TimeoutS: 600})
 			}
 			if tier == "quick" {
-				for _, tc := range [][3]int{{5, 3, 1}, {6, 2, 1000}, {6, 3, 1}} {
+				for _, tc := range [][3]int{{5, 3, 1}, {6, 2, 1000}, {6, 3, 1}, {5, 3, 1000}} {
 					for klo := 0; klo < 64; klo += 8 {
 						add(tc[0], tc[1], 0, tc[2], klo, klo+8)
 					}
@@ -364,7 +366,7 @@ func init() {
 			return js
 		},
 		bounds: map[string]any{
-			"quick":    map[string]any{"workloads": "T5 chunked, T6 chunked and unchunked (one chunk per message), CRC on", "fault": "index k of the failing destination write symbolic over 0..63 (8 cells of 8; every workload makes fewer than 64 writes - beyond the last write the run must equal the reference), bytes accepted by the failing write symbolic 0..min(len,2) (thorough: 9, every split of a record header), sticky or transient symbolic", "attachment_source": "3-byte attachment: source error after symbolic j<=3 bytes; declared size symbolic != true size (64 bit)"},
+			"quick":    map[string]any{"workloads": "T5 chunked (one chunk per message; one chunk holding two channels' messages), T6 chunked and unchunked, CRC on", "fault": "index k of the failing destination write symbolic over 0..63 (8 cells of 8; every workload makes fewer than 64 writes - beyond the last write the run must equal the reference), bytes accepted by the failing write symbolic 0..min(len,2) (thorough: 9, every split of a record header), sticky or transient symbolic", "attachment_source": "3-byte attachment: source error after symbolic j<=3 bytes; declared size symbolic != true size (64 bit)"},
 			"thorough": map[string]any{"workloads": "T1,T3,T4,T5,T6,T7 x 6 option sets", "fault": "k over 0..95 in cells of 8", "attachment_source": "data length 0,1,3,8 x 4 option sets"},
 		},
 		outside:     append([]string{"a destination that returns a short count with a nil error (violates io.Writer's contract)", "zstd/lz4 compressors' own buffering"}, outsideCommon...),
@@ -516,13 +518,17 @@ func init() {
 		jobs: func(tier string) []*Job {
 			var js []*Job
 			slots := func(n, per, ord int) {
-				js = append(js, &Job{Module: "mcap", Harness: "VC20Slots", Params: P("n", n, "per", per, "ord", ord), TimeoutS: 2400})
+				js = append(js, &Job{Module: "mcap", Harness: "VC20Slots", Params: P("n", n, "per", per, "ord", ord, "win", 0), TimeoutS: 2400})
+				if n <= 4 || tier == "thorough" {
+					js = append(js, &Job{Module: "mcap", Harness: "VC20Slots", Params: P("n", n, "per", per, "ord", ord, "win", 1), TimeoutS: 2400})
+				}
 			}
 			lexer := func(tpl, cs, validate int) {
 				js = append(js, &Job{Module: "mcap", Harness: "VC20Lexer", Params: P("tpl", tpl, "cs", cs, "validate", validate), TimeoutS: 600})
 			}
 			att := func(size, lim, cfg, crc int) {
-				js = append(js, &Job{Module: "mcap", Harness: "VC20Attachment", Params: P("size", size, "lim", lim, "cfg", cfg, "crc", crc), TimeoutS: 900})
+				js = append(js, &Job{Module: "mcap", Harness: "VC20Attachment", Params: P("size", size, "lim", lim, "cfg", cfg, "crc", crc, "cb", 1), TimeoutS: 900})
+				js = append(js, &Job{Module: "mcap", Harness: "VC20Attachment", Params: P("size", size, "lim", lim, "cfg", cfg, "crc", crc, "cb", 0), TimeoutS: 900})
 			}
 			for ord := 0; ord <= 2; ord++ {
 				slots(3, 1, ord)
@@ -551,7 +557,7 @@ func init() {
 			return js
 		},
 		bounds: map[string]any{
-			"quick":    map[string]any{"index_based": "files of 3 messages/3 chunks, 4 messages/3 chunks, 4 messages/4 chunks; every log time symbolic (64 bit): every overlap/nesting/backwards arrangement of the chunk time ranges; the bound (overlap depth, computed from the symbolic chunk ranges; 1 in file order) is asserted after every NextInto, in all three orders", "sequential": "T5/T6 at three chunk sizes: single chunk buffer, replaced only by a larger one, <= 2x largest chunk, none when not validating", "attachments": "70000 and 33000 data bytes (symbolic content) through WriteAttachment and the lexer callback with a ceiling of 33000/32900 bytes on any single library allocation (io.Copy's fixed 32 KiB buffer is the largest)"},
+			"quick":    map[string]any{"index_based": "files of 3 messages/3 chunks, 4 messages/3 chunks, 4 messages/4 chunks; every log time symbolic (64 bit): every overlap/nesting/backwards arrangement of the chunk time ranges; the bound (overlap depth, computed from the symbolic chunk ranges; 1 in file order) is asserted after every NextInto, in all three orders, without and with a symbolic time window [s,e)", "sequential": "T5/T6 at three chunk sizes: single chunk buffer, replaced only by a larger one, <= 2x largest chunk, none when not validating", "attachments": "70000 and 33000 data bytes (symbolic content) through WriteAttachment and the lexer (with a callback reading in 4 KiB pieces, and with no callback, also under the non-indexed iterator) with a ceiling of 33000/32900 bytes on any single library allocation (io.Copy's fixed 32 KiB buffer is the largest)"},
 			"thorough": map[string]any{"index_based": "up to 6 messages / 5 chunks", "attachments": "up to 200000 bytes"},
 		},
 		outside:     append([]string{"more than 6 chunks (the property mentions 1000 chunks and overlap depth 8: far outside)", "attachment sizes are enumerated, not symbolic", "process-level memory (RSS); zstd/lz4 decoder buffers"}, outsideCommon...),
